@@ -598,10 +598,11 @@ class BuiltinMixin:
         raise Unsupported('set.' + name)
 
     def dict_method(self, ref, o, name, args, kwargs, node):
+        uz = lambda k: k.e if isinstance(k, ZKey) else k
         if name == 'items':
-            return self.heap.alloc(ListObj([(k, v) for k, v in o.items.items()]))
+            return self.heap.alloc(ListObj([(uz(k), v) for k, v in o.items.items()]))
         if name == 'keys':
-            return self.heap.alloc(ListObj(list(o.items.keys())))
+            return self.heap.alloc(ListObj([uz(k) for k in o.items.keys()]))
         if name == 'values':
             return self.heap.alloc(ListObj(list(o.items.values())))
         if name == 'get':
@@ -619,7 +620,7 @@ class BuiltinMixin:
                 return args[1]
             self.raise_builtin('KeyError', node=node)
         if name == '__iter__':
-            return self.heap.alloc(ListObj(list(o.items.keys())))
+            return self.heap.alloc(ListObj([uz(k) for k in o.items.keys()]))
         if name == 'update':
             src = args[0]
             for k in self.iter_values(src, node):
